@@ -118,6 +118,12 @@ def _one_event(seed: int) -> dict:
         nx = x - w if x < w and rng.random() < 0.3 else x
         ny = y - h if y < h and rng.random() < 0.3 else y
         if name == "get_cell":
+            # more often than not a cell that has an equal neighbour (stored as a run of two or more by the compressed encodings)
+            runs = [(cx, cy) for cy, row in enumerate(pre["rows"]) for cx in range(len(row))
+                    if (cx + 1 < len(row) and row[cx + 1] == row[cx]) or (cx > 0 and row[cx - 1] == row[cx])]
+            if runs and rng.random() < 0.6:
+                x, y = rng.choice(runs)
+                nx, ny = x, y
             g.update(x=x, y=y)
             if rng.random() < 0.5:
                 # the single-position form: the copy carries no repeat count
